@@ -80,6 +80,9 @@ type c39Store struct {
 	// vanished lists violations of clause 4 noticed when a pool disappears.
 	clause4 []string
 	writes  int
+	// faults: "status:<pool>" / "update:<pool>" -> "conflict" | "error"; each fails that write once.
+	faults    map[string]string
+	faultsHit []string
 }
 
 func (s *c39Store) nextRV() string { s.rv++; return fmt.Sprint(s.rv) }
@@ -161,6 +164,18 @@ func (s *c39Store) react(a k8stesting.Action) (bool, runtime.Object, error) {
 	}
 	if obj.ResourceVersion != cur.ResourceVersion {
 		return true, nil, apierrors.NewConflict(gr, obj.Name, fmt.Errorf("resourceVersion %q != %q", obj.ResourceVersion, cur.ResourceVersion))
+	}
+	fk := "update:" + obj.Name
+	if a.GetSubresource() == "status" {
+		fk = "status:" + obj.Name
+	}
+	if kind, ok := s.faults[fk]; ok {
+		delete(s.faults, fk)
+		s.faultsHit = append(s.faultsHit, fk+"="+kind)
+		if kind == "conflict" {
+			return true, nil, apierrors.NewConflict(gr, obj.Name, fmt.Errorf("injected: the object has been modified"))
+		}
+		return true, nil, apierrors.NewInternalError(fmt.Errorf("injected: etcdserver: request timed out"))
 	}
 	s.writes++
 	var upd *v3.IPPool
@@ -283,6 +298,13 @@ type c39Fataler interface {
 // reconcileAndCheck syncs the caches, runs the real reconcile and evaluates the four clauses.
 // It returns the classes of interesting situations the reconcile went through.
 func (e *c39Env) reconcileAndCheck(t c39Fataler, hist *[]string) []string {
+	return e.reconcileWithFaults(t, hist, nil)
+}
+
+// reconcileWithFaults: when faults are given, a first pass runs with those writes failing once; its
+// result is not judged (except clause 4, which is about irreversible deletions).  The caches are
+// then re-synced and the fault-free retry is judged against the state before the faulty pass.
+func (e *c39Env) reconcileWithFaults(t c39Fataler, hist *[]string, faults map[string]string) []string {
 	s := e.s
 	if err := s.syncCaches(e.pools, e.blocks); err != nil {
 		t.Fatalf("HARNESS-GAP: cache sync: %v", err)
@@ -329,11 +351,41 @@ func (e *c39Env) reconcileAndCheck(t c39Fataler, hist *[]string) []string {
 		}
 	}
 
+	afterFaulty := ""
+	if len(faults) > 0 {
+		s.faults, s.faultsHit = faults, nil
+		ferr := e.c.reconcile()
+		s.faults = nil
+		*hist = append(*hist, fmt.Sprintf("R!%v", s.faultsHit))
+		afterFaulty = "after the pass with failed writes " + fmt.Sprint(s.faultsHit) + " (returned: " + fmt.Sprint(ferr) + "):\n" + s.describe()
+		if len(s.faultsHit) == 0 && ferr != nil {
+			t.Fatalf("HARNESS-GAP: reconcile returned an error although no injected fault fired: %v", ferr)
+		}
+		if len(s.faultsHit) > 0 && ferr == nil {
+			classes = append(classes, "write-failure-swallowed")
+		}
+		for _, h := range s.faultsHit {
+			if strings.HasPrefix(h, "status:") {
+				classes = append(classes, "status-write-failed-then-retry")
+				if preTerminating[strings.TrimSuffix(strings.TrimSuffix(strings.TrimPrefix(h, "status:"), "=conflict"), "=error")] {
+					classes = append(classes, "terminating-status-write-failed")
+				}
+			} else {
+				classes = append(classes, "finalizer-write-failed-then-retry")
+			}
+		}
+		if len(s.clause4) > 0 {
+			t.Fatalf("clause 4 violated: %s\nhistory: %s\nbefore reconcile:\n%s%s", strings.Join(s.clause4, "; "), strings.Join(*hist, " "), before, afterFaulty)
+		}
+		if err := s.syncCaches(e.pools, e.blocks); err != nil {
+			t.Fatalf("HARNESS-GAP: cache sync: %v", err)
+		}
+	}
 	err := e.c.reconcile()
 	*hist = append(*hist, "R")
-	after := s.describe()
+	after := afterFaulty + "after reconcile:\n" + s.describe()
 	fail := func(format string, args ...any) {
-		t.Fatalf("%s\nhistory: %s\nbefore reconcile:\n%safter reconcile:\n%s", fmt.Sprintf(format, args...), strings.Join(*hist, " "), before, after)
+		t.Fatalf("%s\nhistory: %s\nbefore reconcile:\n%s%s", fmt.Sprintf(format, args...), strings.Join(*hist, " "), before, after)
 	}
 	if err != nil {
 		fail("HARNESS-GAP: reconcile on a synced cache returned an error (oracle needs a completed reconcile): %v", err)
@@ -533,7 +585,23 @@ func c39Run(t *rapid.T, rec *ev.Recorder) {
 		case "tick":
 			s.now += int64(rapid.IntRange(1, 100).Draw(t, "dt"))
 		case "reconcile":
-			addClasses(e.reconcileAndCheck(t, &hist))
+			var faults map[string]string
+			if rapid.IntRange(0, 2).Draw(t, "injectWriteFailures") == 0 {
+				faults = map[string]string{}
+				for _, n := range c39SortedKeys(s.pools) {
+					kind := rapid.SampledFrom([]string{"conflict", "error"}).Draw(t, "failureKind")
+					switch rapid.IntRange(0, 5).Draw(t, "failWrite:"+n) {
+					case 0, 1:
+						faults["status:"+n] = kind
+					case 2:
+						faults["update:"+n] = kind
+					case 3:
+						faults["status:"+n] = kind
+						faults["update:"+n] = kind
+					}
+				}
+			}
+			addClasses(e.reconcileWithFaults(t, &hist, faults))
 			reconciles++
 		}
 	}
@@ -565,7 +633,8 @@ func TestVerifC39PoolOverlap(t *testing.T) {
 	ev.Quiet()
 	rec := ev.New("C39", "ippool",
 		"random histories of pool create (nested CIDR family, equal-second creation times), disable/enable, delete, IPAM block create/delete and reconcile on a synced cache; non-trivial when a new pool overlaps an allocatable one, two new pools overlap, or a terminating pool overlaps an enabled pool / holds blocks; distinct by op-kind sequence + classes hit",
-		"the miniature API server in the harness (resourceVersion conflicts, status subresource, finalizer-gated deletion) stands in for the Kubernetes API server",
+		"the miniature API server in the harness (resourceVersion conflicts, status subresource, finalizer-gated deletion, injected one-shot write failures) stands in for the Kubernetes API server",
+		"a reconcile pass in which an injected write failure fired is not judged itself (except that no pool may vanish against clause 4); the immediately following fault-free retry is judged against the state before the faulty pass",
 		"allocatable is what clientv3.filterIPPool lets IPAM use: not deleting, not Spec.Disabled, no Allocatable=False condition",
 		"IPAM blocks are only created inside pools that are allocatable at that moment; they may outlive the pool",
 		"pools carry no finalizers other than the controller's own",
